@@ -45,7 +45,22 @@ UsesAlias(t) == \/ t.k = "alias"
                 \/ \E i \in 1..Len(t.fs) : t.fs[i].t # <<>> /\ UsesAlias(t.fs[i].t[1])
 Solo == {Desc("a.b", <<MMethod("M", Struct(<<F("x", TypeSeq[i])>>), Struct(<<>>))>>) : i \in {j \in 1..NT : ~UsesAlias(TypeSeq[j])}}
         \cup {Desc("a.b", <<MMethod("M", Struct(<<>>), Struct(<<F("x", TypeSeq[i])>>))>>) : i \in {j \in 1..NT : ~UsesAlias(TypeSeq[j]) /\ TypeSeq[j].k \in {"object", "map", "array", "maybe"}}}
-Programs == Packed \cup Names \cup Solo
+(* a named type that no method mentions / that one method takes: what the type declarations need (imports, helper *)
+(* code) must not depend on the methods happening to need the same                                            *)
+TypeOnly == {Desc("a.b", <<MType("T", TypeSeq[i]), MMethod("M", Struct(<<>>), Struct(<<>>))>>) : i \in {j \in 1..NT : ~UsesAlias(TypeSeq[j])}}
+            \cup {Desc("a.b", <<MType("T", TypeSeq[i]), MMethod("M", Struct(<<F("x", Alias("T"))>>), Struct(<<>>))>>) : i \in {j \in 1..NT : ~UsesAlias(TypeSeq[j]) /\ TypeSeq[j].k \in {"object", "map", "array", "maybe", "struct"}}}
+Minimal == {Desc("a.b", <<MMethod("Ping", Struct(<<>>), Struct(<<>>))>>),
+            Desc("a.b", <<MMethod("M", Struct(<<F("x", Leaf("int"))>>), Struct(<<F("y", Leaf("string"))>>))>>),
+            Desc("a.b", <<MType("T", Struct(<<F("a", Leaf("bool"))>>)), MMethod("M", Struct(<<>>), Struct(<<>>)), MError("Bare", <<>>)>>)}
+Programs == Packed \cup Names \cup Solo \cup TypeOnly \cup Minimal
+
+(* the text a program is written as (the grammar's layout freedom, C05): plain; a documentation block with backticks *)
+(* and quotes above every member; CRLF line ends with documentation; documentation that mentions identifiers the     *)
+(* generator itself emits or searches its output for; documentation that contains the generator's own placeholder    *)
+Styles == {"plain", "docs", "crlf", "words", "placeholder"}
+Cases == {[desc |-> d, toks |-> TokD(d), style |-> st] : d \in Packed \cup Names, st \in {"plain", "docs", "crlf"}}
+         \cup {[desc |-> d, toks |-> TokD(d), style |-> "plain"] : d \in Solo \cup TypeOnly}
+         \cup {[desc |-> d, toks |-> TokD(d), style |-> st] : d \in Minimal, st \in Styles}
 
 (* the package name the generator derives: the interface name in lower case without '.' (and without '-') *)
 Upper == <<"A","B","C","D","E","F","G","H","I","J","K","L","M","N","O","P","Q","R","S","T","U","V","W","X","Y","Z">>
